@@ -14,7 +14,8 @@ def main(argv):
         return 0
     if argv and argv[0] == "--shrink":
         from .runner import shrink_main
-        return shrink_main(argv[1], argv[2], int(argv[3]), argv[4], argv[5])
+        hist = [int(x) for x in argv[6].split(",")] if len(argv) > 6 and argv[6] else None
+        return shrink_main(argv[1], argv[2], int(argv[3]), argv[4], argv[5], hist)
     if argv and argv[0] == "--replay":
         from .runner import replay_main
         return replay_main(argv[1])
